@@ -6,6 +6,7 @@ mod synth;
 mod watcher;
 mod quit;
 mod fsreal;
+mod spawn;
 
 use std::collections::BTreeMap;
 
@@ -304,6 +305,13 @@ fn main() {
 			let mut k = 0usize;
 			while !budget.exhausted() {
 				quit::run_one(&args, &mut rng, &mut rep, k);
+				k += 1;
+			}
+		}
+		"C18" => {
+			let mut k = 0usize;
+			while !budget.exhausted() {
+				spawn::run_one(&args, &mut rng, &mut rep, k);
 				k += 1;
 			}
 		}
